@@ -6,3 +6,4 @@ open GoSQLXModel
 #print axioms Props.C14.walk_visits_exactly
 #print axioms Props.C14.walk_visits_only_tree_nodes
 #print axioms Props.C14.windowFrame_counterexample
+#print axioms Props.C14.gen_children_no_range_address
